@@ -112,6 +112,16 @@ def build_q(sp):
         q = q.limit(sp["lim"])
     if sp.get("hint"):
         q = q.hint(sp["hint"])
+    # operand-level dialect clauses: they belong to the operand's own text and must never leak into the chain's tail
+    if sp.get("limit_by"):
+        n_, off_, col_ = sp["limit_by"]
+        q = q.limit_by(n_, T.field(col_)) if off_ is None else q.limit_offset_by(n_, off_, T.field(col_))
+    if sp.get("distinct_on"):
+        q = q.distinct_on(T.field(sp["distinct_on"]))
+    if sp.get("top") is not None:
+        q = q.top(sp["top"])
+    if sp.get("for_update"):
+        q = q.for_update()
     return q
 
 
@@ -864,6 +874,19 @@ def gen_q(rng, cls, arity, sqlite_safe=False, tbl=None, aliases=False):
             sp["hint"] = rng.choice(["h1", "lbl"])
         if cls != "ClickHouseQuery" and rng.random() < 0.08:
             sp["wrap"] = rng.random() < 0.5
+        if cls == "ClickHouseQuery":
+            if rng.random() < 0.35:
+                sp["limit_by"] = [rng.choice([1, 2, 5]), rng.choice([None, None, 0, 3]), rng.choice(COLS)]
+            if rng.random() < 0.10:
+                sp["distinct_on"] = rng.choice(COLS)
+        elif cls == "MSSQLQuery":
+            if rng.random() < 0.20 and sp.get("lim") is None:
+                sp["top"] = rng.choice([0, 1, 10])
+        elif cls == "PostgreSQLQuery":
+            if rng.random() < 0.15:
+                sp["distinct_on"] = rng.choice(COLS)
+        if cls in ("Query", "MySQLQuery", "PostgreSQLQuery", "RedshiftQuery") and rng.random() < 0.08:
+            sp["for_update"] = True
     return sp
 
 
@@ -1004,6 +1027,10 @@ def histogram(cases):
         inc("base=" + c["base"].get("cls", "?"))
         for m in meths:
             inc("meth=" + m)
+        for sp in specs:
+            for cl in ("limit_by", "distinct_on", "top", "for_update", "hint"):
+                if sp.get(cl) is not None and sp.get(cl) is not False:
+                    inc(("base" if sp is specs[0] else "operand") + "-clause=" + cl)
         for sp in specs[1:]:
             inc("operand=" + ("q" if sp["k"] == "q" else sp["k"]))
             if sp["k"] == "q" and sp["cls"] != c["base"].get("cls"):
